@@ -6,7 +6,7 @@ from jv.props import common as C
 
 ID = "C04"
 LEVEL = "exploration"
-BUDGET = {"quick": 2400, "thorough": 40000}
+BUDGET = {"quick": 4000, "thorough": 48000}
 RULE = (
     "case = generated scenario x schedule run to completion; oracle: job canceled by the reference model "
     "(flag set and some blocker failed/canceled, evaluated in topological order) <=> result status 'canceled' "
